@@ -97,6 +97,9 @@ void _ZdaPv(void *p) { free(p); }
 void _ZdlPvm(void *p, u64 n) { (void)n; free(p); }
 void _ZdaPvm(void *p, u64 n) { (void)n; free(p); }
 void *vf_alloca(u64 n) { return _Znwm(n); }
+#ifndef __CPROVER__
+void *vf_typed_alloc(void *p) { return p; }
+#endif
 
 /* ---------------- intrinsics ---------------- */
 struct vf_va_list { u32 gp_offset, fp_offset; void *overflow_arg_area, *reg_save_area; };
